@@ -12,7 +12,8 @@ from vf import core
 PROPFILE = "Properties_C02_deque.v"
 THEOREMS = ["wsd_exactly_once", "wsd_no_loss", "wsd_quiescent_content",
             "wsd_steal_fifo_pop_lifo", "wsd_abort_justified", "wsd_empty_justified",
-            "wsd_growth_preserves", "wsd_safety_core"]
+            "wsd_growth_preserves", "wsd_safety_core",
+            "wsd_tso_exactly_once", "wsd_tso_no_loss", "wsd_tso_release_store_refuted"]
 PUSH, POP, STEAL = 1, 2, 3
 EMPTY, ABORT = -1, -2
 LABEL = "wsd"
@@ -357,5 +358,6 @@ TRUSTED = [
 ASSUME = ["top/bottom do not reach 2^63 (Z in the model)",
           "one owner: only thread 0 calls push_bottom/pop_bottom (hypothesis owner_only; the scheduler half of C02 "
           "is responsible for it)",
-          "SC interleaving (the x86-TSO variant of the deque model is not included)",
+          "wsd_tso_*: x86-TSO abstract machine with a FIFO store buffer per thread (only the owner's is ever non-empty); "
+          "the TSO model is the SC model re-run on a store-buffer machine, it is not itself tied to the C code by traces",
           "malloc never fails (growth always succeeds)"]
